@@ -247,14 +247,15 @@ def tlc_trace_states(out):
 # and a cfg <X>_gen.cfg with ACTION_CONSTRAINT ExportEdge, where
 #   ExportEdge == PrintT(<<"E", ToJson([s |-> SId, sa |-> lastAct.a, d |-> SId', act |-> lastAct', obs |-> Obs'])>>)
 
-def tlc_edges(spec_rel, cfg, timeout=900, env=None, cache=True):
+def tlc_edges(spec_rel, cfg, timeout=900, env=None, cache=True, simulate=None, depth=None, seed=None):
+    """Complete edge list of the state graph (BFS, 1 worker) or -- with simulate=N -- the edges of N
+    random behaviours of length depth (g["walks"] then lists them in order)."""
     spec_path = os.path.join(SPEC, spec_rel)
     sdir = os.path.dirname(spec_path)
     h = hashlib.sha256()
-    for f in sorted(os.listdir(sdir)):
-        if f.endswith(".tla") or f == cfg:
-            h.update(open(os.path.join(sdir, f), "rb").read())
-    h.update(json.dumps(env or {}, sort_keys=True).encode())
+    for f in (os.path.basename(spec_path), cfg):
+        h.update(open(os.path.join(sdir, f), "rb").read())
+    h.update(json.dumps([env or {}, simulate, depth, seed], sort_keys=True).encode())
     key = h.hexdigest()[:20]
     cdir = os.path.join(WORK, "edges")
     os.makedirs(cdir, exist_ok=True)
@@ -262,7 +263,7 @@ def tlc_edges(spec_rel, cfg, timeout=900, env=None, cache=True):
     if cache and os.path.exists(cfile):
         with open(cfile) as f:
             return json.load(f)
-    res = tlc(spec_rel, cfg, workers=1, timeout=timeout, env=env)
+    res = tlc(spec_rel, cfg, workers=1, timeout=timeout, env=env, simulate=simulate, depth=depth, seed=seed)
     if res["status"] != "ok":
         raise Broken("edge export %s/%s: TLC %s\n%s" % (spec_rel, cfg, res["status"], res["out"][-3000:]))
     edges = []
@@ -270,6 +271,7 @@ def tlc_edges(spec_rel, cfg, timeout=900, env=None, cache=True):
     inits = set()
     init_acts = {}
     fins = {}
+    simwalks = []
 
     def nid(x):
         k = json.dumps(x, sort_keys=True)
@@ -285,9 +287,13 @@ def tlc_edges(spec_rel, cfg, timeout=900, env=None, cache=True):
         if e["sa"]["a"] == "init":
             inits.add(s)
             init_acts[str(s)] = e["sa"]
+            if simulate:
+                simwalks.append([])
+        if simulate and simwalks:
+            simwalks[-1].append(len(edges))
         edges.append([s, d, e["act"], e["obs"]])
         fins[str(d)] = e.get("fin")
-    g = dict(edges=edges, inits=sorted(inits), init_acts=init_acts, fins=fins, nstates=len(ids), generated=res["generated"],
+    g = dict(edges=edges, inits=sorted(inits), init_acts=init_acts, fins=fins, nstates=len(ids), walks=simwalks, generated=res["generated"],
              distinct=res["distinct"], depth=res["depth"], wall=res["wall"], cmd=res["cmd"])
     with open(cfile, "w") as f:
         json.dump(g, f)
@@ -510,6 +516,9 @@ class Verdict:
             if sig in seen:
                 continue
             seen.add(sig)
-            print("VIOLATION property=%s replay=%s sig=%s %s" % (self.prop, path, sig, text))
+            if len(seen) <= 25:
+                print("VIOLATION property=%s replay=%s sig=%s %s" % (self.prop, path, sig, text[:1500]))
+        if len(seen) > 25:
+            print("(... %d more distinct violation signatures, see %s)" % (len(seen) - 25, os.path.join(WORK, "replay")))
         sys.stdout.flush()
         return 1 if self.violations else 0
